@@ -88,7 +88,9 @@ class C07(Plugin):
         for i in range(n):
             yield {"seed": rng.randrange(1 << 40), "opts": rnd_opts(rng), "tree": rng.choice(["etree", "dom"]),
                    "depth": rng.choice([1, 2, 2, 3, 3, 4]), "pre_newline": rng.random() < 0.03,
-                   "bool_values": rng.random() < 0.03, "xlink": rng.random() < 0.03}
+                   "bool_values": rng.random() < 0.03, "xlink": rng.random() < 0.03,
+                   # the encoding option: bytes out, characters the encoding lacks as references (oracle only)
+                   "enc": rng.choice(["ascii", "koi8-r", "iso-8859-7"]) if rng.random() < 0.15 else None}
 
     def corpus(self):
         return []
@@ -105,8 +107,9 @@ class C07(Plugin):
                 "C07-namespaced-attribute-prefix-dropped": w(887, xlink=True)}
 
     def forest(self, case):
-        g = conforming.Gen(random.Random(case["seed"]), pre_newline=case["pre_newline"], bool_values=case["bool_values"],
-                           xlink=case.get("xlink", False))
+        chars = conforming.CHARS + list("ÉÀÖÑÚÆÇÝÞÐØéñ©Ω") if case.get("enc") else None
+        g = conforming.Gen(random.Random(case["seed"]), text_chars=chars, pre_newline=case["pre_newline"],
+                           bool_values=case["bool_values"], xlink=case.get("xlink", False))
         return g.document(case["depth"])
 
     def real_tree(self, case, forest):
@@ -121,6 +124,8 @@ class C07(Plugin):
         return forest, [T.to_json(t) for t in html5lib.getTreeWalker(case["tree"])(doc)]
 
     def encode(self, case):
+        if case.get("enc"):
+            return None           # the pipeline model has no encoding step
         forest, stream = self.stream(case)
         o = case["opts"]
         return [enc_opts(o), int(o["alphabetical_attributes"]), int(o["omit_optional_tags"]),
@@ -136,6 +141,10 @@ class C07(Plugin):
     def impl(self, case):
         forest, stream = self.stream(case)
         s = self.serializer(case)
+        if case.get("enc"):
+            txt = s.render([T.from_json(t) for t in stream], case["enc"])
+            self._last = (forest, txt, list(s.errors))
+            return [0, txt.decode("latin-1"), list(s.errors)]
         txt = s.render([T.from_json(t) for t in stream])
         self._last = (forest, txt, list(s.errors))
         return [0, txt, list(s.errors)]
@@ -145,7 +154,7 @@ class C07(Plugin):
         forest, txt, errs = self._last
         tb = html5lib.getTreeBuilder("etree", fullTree=True) if case["tree"] == "etree" else html5lib.getTreeBuilder("dom")
         p = html5lib.HTMLParser(tree=tb)
-        doc = p.parse(txt)
+        doc = p.parse(txt, transport_encoding=case["enc"]) if case.get("enc") else p.parse(txt)
         back = trees.dom_forest(doc) if case["tree"] == "dom" else trees.et_forest(doc)
         a, b = norm(forest), norm(trees.coalesce(back))
         if a == b:
@@ -162,12 +171,16 @@ class C07(Plugin):
             return "boolean-attribute-value-dropped"
         if case.get("xlink"):
             return "namespaced-attribute-prefix-dropped"
+        if case.get("enc") and any(("/%s[" % n) in path for n in ("script", "style", "xmp", "iframe", "noembed", "noframes",
+                                                                  "noscript", "plaintext")):
+            return "unencodable-in-rawtext-element"
         return "tree-differs-after-roundtrip"
 
     def classify(self, cls, case, detail):
         return {"leading-newline-in-pre-textarea": "C07-leading-newline-in-pre-textarea",
                 "boolean-attribute-value-dropped": "C07-boolean-attribute-value-dropped",
-                "namespaced-attribute-prefix-dropped": "C07-namespaced-attribute-prefix-dropped"}.get(cls)
+                "namespaced-attribute-prefix-dropped": "C07-namespaced-attribute-prefix-dropped",
+                "unencodable-in-rawtext-element": "C07-unencodable-in-rawtext-element"}.get(cls)
 
     def nontrivial_key(self, case, out):
         return "%d|%s" % (case["seed"], json.dumps(case["opts"], sort_keys=True)) if out and len(out[1]) > 60 else None
